@@ -499,3 +499,50 @@ def fam_wide(widths=(31, 32, 33, 63, 64, 65, 127, 128)):
                 yield E.ExprOp("==", E.ExprCompose(h, E.ExprInt(0, half)), c)
                 yield E.ExprOp("&", E.ExprCompose(h, h), c)
             yield E.ExprCompose(h, h.signExtend(w)[half:w])
+
+
+def fam_cond_nary(widths):
+    """n-ary commutative operations holding several conditionals (same and different conditions) next to
+    identifiers / constants, bare and nested under every kind of parent node (simp_cond_factor,
+    simp_cond_op_int, canonisation order of mixed operand kinds)."""
+    E = _E()
+    for w in widths:
+        x = E.ExprId("x%d" % w, w)
+        y = E.ExprId("y%d" % w, w)
+        c1 = E.ExprId("c1", 1)
+        d1 = E.ExprId("d1", 1)
+        one = E.ExprInt(1, w)
+        two = E.ExprInt(2 % (1 << w), w)
+        conds = [
+            (E.ExprCond(c1, y, one), E.ExprCond(d1, x, two)),      # different conditions
+            (E.ExprCond(c1, y, one), E.ExprCond(c1, x, two)),      # same condition
+            (E.ExprCond(c1, one, two), E.ExprCond(d1, two, one)),  # constant arms
+            (E.ExprCond(x, y, one), E.ExprCond(y, x, two)),        # wide conditions
+        ]
+        others = [[], [x], [x, y], [one], [x, one], [E.ExprMem(x, 8).zeroExtend(w) if w > 8 else E.ExprOp("-", x)]]
+        for op in NARY:
+            for ca, cb in conds:
+                for oth in others:
+                    for order in (0, 1, 2):
+                        args = {0: oth + [ca, cb], 1: [ca] + oth + [cb], 2: [ca, cb] + oth}[order]
+                        if len(args) < 2:
+                            continue
+                        core = E.ExprOp(op, *args)
+                        yield core
+                        # every kind of parent
+                        yield E.ExprOp("-", core)
+                        yield E.ExprMem(core, 8)
+                        yield E.ExprSlice(core, 0, 1)
+                        if w > 1:
+                            yield E.ExprSlice(core, 1, w)
+                        yield E.ExprCond(core, x, y)
+                        yield E.ExprCond(c1, core, x)
+                        yield E.ExprCompose(core, x)
+                        yield E.ExprCompose(x, core)
+                        yield E.ExprOp("==", core, x)
+                        yield E.ExprOp("<u", x, core)
+                        yield E.ExprOp("+", core, y) if op != "+" else E.ExprOp("^", core, y)
+                        yield E.ExprOp("<<", core, one)
+                        yield core.zeroExtend(w + 1)
+                        yield core.signExtend(w + 2)
+                        yield E.ExprOp("FLAG_EQ_CMP", core, x)
